@@ -48,17 +48,27 @@ theorem zero_src_eq (dst : Bytes) : Extracted.GlueMd.zero_src dst = some (zeros 
 theorem new_src_eq_model (N : Nat) : Extracted.GlueMd.FixedBuffer.new_src N = FixedBuffer.new N := rfl
 
 /-- the continuation of `input` after the first `if` (generated as a join point because one branch `return`s) is the
-    hand model's `input_rest` — rfl -/
-theorem input_src_k1_eq_model {σ : Type} (N : Nat) (self : FixedBuffer) (input : Bytes)
+    hand model's `input_rest`.  The generated text refuses `remaining / N` for `N = 0` (Rust panics on a zero divisor; audit 3, F9),
+    the hand model does not mention that case: the tie holds for every instantiated buffer size (`N ≠ 0`; 64 and 128 in the crate) -/
+theorem input_src_k1_eq_model {σ : Type} (N : Nat) (hN : N ≠ 0) (self : FixedBuffer) (input : Bytes)
     (func : σ → Bytes → Option σ) (st : σ) (i : Nat) :
-    Extracted.GlueMd.FixedBuffer.input_src_k1 N self input func st i = FixedBuffer.input_rest N self input i func st := rfl
+    Extracted.GlueMd.FixedBuffer.input_src_k1 N self input func st i = FixedBuffer.input_rest N self input i func st := by
+  unfold Extracted.GlueMd.FixedBuffer.input_src_k1 FixedBuffer.input_rest
+  simp only [hN, if_false]
+  rfl
+
+/-- for `N = 0` the source panics as soon as it divides: the generated definition says so (the hand model is not used there) -/
+theorem input_src_k1_zero {σ : Type} (self : FixedBuffer) (input : Bytes) (func : σ → Bytes → Option σ) (st : σ) (i : Nat) :
+    Extracted.GlueMd.FixedBuffer.input_src_k1 0 self input func st i = none := by
+  unfold Extracted.GlueMd.FixedBuffer.input_src_k1
+  by_cases h : input.length < i <;> simp [h]
 
 /-- `FixedBuffer::input`, all three regimes, any callback — proved (`0 + r = r`, `!=` vs `≠`) -/
-theorem input_src_eq_model {σ : Type} (N : Nat) (self : FixedBuffer) (input : Bytes)
+theorem input_src_eq_model {σ : Type} (N : Nat) (hN : N ≠ 0) (self : FixedBuffer) (input : Bytes)
     (func : σ → Bytes → Option σ) (st : σ) :
     Extracted.GlueMd.FixedBuffer.input_src N self input func st = self.input N input func st := by
   unfold Extracted.GlueMd.FixedBuffer.input_src FixedBuffer.input
-  simp only [input_src_k1_eq_model, Nat.zero_add, bne_iff_ne, ne_eq, ite_not]
+  simp only [input_src_k1_eq_model N hN, Nat.zero_add, bne_iff_ne, ne_eq, ite_not]
   rfl
 
 theorem reset_src_eq_model (self : FixedBuffer) : Extracted.GlueMd.FixedBuffer.reset_src self = self.reset := rfl
@@ -310,7 +320,7 @@ theorem engine256_reset_src_eq_model (self : Engine256) (h : Spec.Sha2.W8 UInt32
 theorem engine256_input_src_eq_model (self : Engine256) (input : Bytes) :
     Extracted.GlueMd.Engine256.input_src self input = self.input input := by
   unfold Extracted.GlueMd.Engine256.input_src Engine256.input
-  simp only [blocks256_fun, input_src_eq_model]
+  simp only [blocks256_fun, input_src_eq_model 64 (by decide)]
   rfl
 /-- `(processed_bytes << 3).to_be_bytes()` for the `u64` counter is the model's `len_be64` -/
 theorem len_be64_src (pb : Nat) : natToBE 8 ((pb <<< 3) % 2 ^ 64) = len_be64 pb := by
@@ -365,7 +375,7 @@ theorem engine512_reset_src_eq_model (self : Engine512) (h : Spec.Sha2.W8 UInt64
 theorem engine512_input_src_eq_model (self : Engine512) (input : Bytes) :
     Extracted.GlueMd.Engine512.input_src self input = self.input input := by
   unfold Extracted.GlueMd.Engine512.input_src Engine512.input
-  simp only [blocks512_fun, input_src_eq_model]
+  simp only [blocks512_fun, input_src_eq_model 128 (by decide)]
   rfl
 /-- the 128-bit length field of SHA-512 -/
 theorem len_be128_src (pb : Nat) : natToBE 16 ((pb <<< 3) % 2 ^ 128) = len_be128 pb := by
